@@ -91,6 +91,10 @@ def check_one(rng, X, trunc, param, reuse=None):
         want = None
     else:
         want = None
+    if trunc == 'cutoff' and r > 0 and float(np.min(s)) <= float(param):
+        # the property's own predicate on the estimator's own (bit-exact) singular values
+        return False, dict(what='cutoff truncation kept a singular value that does not exceed the cutoff',
+                           cutoff=float(param), kept=s.tolist(), shape=list(X.shape)), full, r
     if want is not None and r != want:
         return False, dict(what=f'retained rank does not obey the {trunc} rule', rank=int(r), expected=int(want),
                            param=param, shape=list(X.shape)), full, r
